@@ -161,6 +161,9 @@ func RunVariantChild(repo, prop, variant string) int {
 	}
 	r := core.NewReport(prop)
 	props.RunFull(prop, p, r)
+	if known, err := core.LoadKnown(filepath.Join(verif, "known_findings.json")); err == nil {
+		r.ApplyKnown(known, false)
+	}
 	out.Obligations = len(r.Obligations)
 	for _, o := range r.Obligations {
 		switch o.Status {
